@@ -227,7 +227,14 @@ V("C17-scheduler-stops-on-error","C17",WC+"flush.go","			for len(c.flushErrCh) >
 V("C15-meta-before-data","C15",SH+"put.go","	if !cachedPut {\n		var err = s.blobStor.Put(addr, objBin)","	if !cachedPut && !m.NoMetabase() {\n		var err = s.blobStor.Put(addr, objBin)",rule="C15.R1")
 V("C15-flushbatch-deletes-on-error","C15",WC+"flush.go","					addr.EncodeToString(), err)\n			}\n		}\n		return err\n	}\n\n	for addr := range objs {","					addr.EncodeToString(), err)\n			}\n			return err\n		}\n	}\n\n	for addr := range objs {",rule="C15.R2")
 V("C15-blob-delete-before-meta","C15",SH+"delete.go","	res, diff, err := s.metaBase.Delete(cnr, addrs)\n	if err != nil {\n		return err // stop on metabase error ?\n	}","	res, diff, err := s.metaBase.Delete(cnr, addrs)\n	if err != nil && len(res) == 0 {\n		return err // stop on metabase error ?\n	}",rule="C15.R3")
-V("C15-markgarbage-cache-first","C15",SH+"inhume.go","		return fmt.Errorf(\"metabase inhume: %w\", err)\n	}","	}",rule="C15.R4")
+V("C15-revert-fix-mark-drops-cached-data","C15","pkg/local_object_storage/shard/inhume.go","""	// The data stays where it is (in the write-cache too) until GC removes the
+	// object along with its metadata: the mark can still be taken back.
+""","""	if mark == meta.GarbageMarkDefault && s.hasWriteCache() {
+		for i := range addrs {
+			_ = s.writeCache.Delete(oid.NewAddress(cnr, addrs[i]))
+		}
+	}
+""",rule="C15.R4")
 V("C15-put-no-rollback","C15",SH+"put.go","			var err = s.blobStor.Delete(addr)\n			if err != nil && !errors.Is(err, apistatus.ErrObjectNotFound) {","			var err error\n			if !cachedPut {\n				err = s.blobStor.Delete(addr)\n			}\n			if err != nil && !errors.Is(err, apistatus.ErrObjectNotFound) {",rule="C15.R5")
 V("C16-detach-without-flush","C16",WC+"mode.go","		err := c.flush(true)\n		if err != nil {\n			return err\n		}","		err := c.flush(true)\n		if err != nil && !m.ReadOnly() {\n			return err\n		}",rule="C16.R2")
 V("C16-cache-miss-returns-notfound","C16",SH+"get.go","		if errors.Is(err, apistatus.ErrObjectNotFound) {\n			s.log.Debug(\"object is missing in write-cache\",","		if errors.Is(err, apistatus.ErrObjectNotFound) && skipMeta {\n			return false, err\n		}\n		if errors.Is(err, apistatus.ErrObjectNotFound) {\n			s.log.Debug(\"object is missing in write-cache\",",rule="C16.R3")
